@@ -230,7 +230,7 @@ fn judge(c: &Case) -> Option<(String, String)> {
 pub fn c03(ctx: &Ctx) -> Report {
     let methods = ["GET", "HEAD", "POST"];
     let statuses: Vec<u16> = match ctx.tier {
-        Tier::Quick => vec![100, 101, 199, 200, 204, 206, 300, 304, 305, 404, 500],
+        Tier::Quick => vec![100, 101, 199, 200, 204, 205, 206, 300, 304, 305, 404, 500],
         Tier::Thorough => vec![100, 101, 102, 199, 200, 201, 204, 205, 206, 299, 300, 304, 305, 400, 404, 500, 599],
     };
     let cls: Vec<Vec<&str>> = vec![
@@ -252,6 +252,10 @@ pub fn c03(ctx: &Ctx) -> Report {
         vec!["5", "abc"],
         vec!["18446744073709551616"],
         vec!["99999999999999999999999"],
+        vec!["+5"],
+        vec!["5", "+5"],
+        vec!["5", "5", "5", "6"],
+        vec!["5", "5", "5", "5", "6"],
     ];
     let tes: Vec<Option<&str>> = vec![
         None,
@@ -263,6 +267,10 @@ pub fn c03(ctx: &Ctx) -> Report {
         Some("GZIP,Chunked"),
         Some("gzip|chunked"),
         Some("GZip|Chunked"),
+        Some("\tchunked"),
+        Some("chunked\t"),
+        Some("gzip,\tchunked"),
+        Some("compress|chunked"),
     ];
     let mut cases = Vec::new();
     for m in methods {
